@@ -2,6 +2,7 @@ package main
 
 import (
 	"bufio"
+	"context"
 	"encoding/gob"
 	"encoding/json"
 	"fmt"
@@ -123,8 +124,18 @@ func workerMain(args []string) int {
 	defer wd.Stop()
 	enc := gob.NewEncoder(os.Stdout)
 
+	skip := map[int]bool{}
+	for _, f := range strings.Split(os.Getenv("IKESIM_SKIP"), ",") {
+		if v, err := strconv.Atoi(f); err == nil {
+			skip[v] = true
+		}
+	}
 	for idx := lo + wi; idx < count; idx += wn {
 		curIdx = idx
+		if skip[idx] {
+			stats.inc("c18_serialized_schedule_blocked_by_parking_skipped")
+			continue
+		}
 		if announce {
 			fmt.Fprintf(os.Stderr, "RUNNING index=%d\n", idx)
 		}
@@ -222,6 +233,39 @@ func workerCount() int {
 		n = 32
 	}
 	return n
+}
+
+// spawnWorkerClassifyingBlocks is spawnWorker for the serialized C18 phase. There the simulator parks tasks at
+// yield points; if a parked task holds something the running task needs and the simulator does not know about
+// (locks are tracked, a hand-made semaphore would not be), the running task blocks for real and the watchdog
+// fires although the library is fine. Such a watchdog hit is re-examined in a fresh process with the same tasks
+// run one after the other (nobody parked): if that completes, the block was made by the simulator; the scenario
+// is skipped, counted, and the worker's range is run again without it. A block that persists is a hang.
+func spawnWorkerClassifyingBlocks(self string, env []string, args []string) (*WorkerResult, string, error) {
+	var skip []string
+	for attempt := 0; ; attempt++ {
+		e := env
+		if len(skip) > 0 {
+			e = append(append([]string{}, env...), "IKESIM_SKIP="+strings.Join(skip, ","))
+		}
+		r, se, err := spawnWorker(self, e, args)
+		if err == nil || attempt >= 8 {
+			return r, se, err
+		}
+		idx, ok := parseHang(se)
+		if !ok {
+			return r, se, err
+		}
+		seq := append(append([]string{}, env...), "IKESIM_C18_SEQUENTIAL=1")
+		_, se2, err2 := spawnWorker(self, seq, []string{args[0], args[1], args[2], "0", "1", strconv.Itoa(idx), strconv.Itoa(idx + 1)})
+		if err2 != nil {
+			if _, hang := parseHang(se2); hang {
+				return r, se, err // blocks without any parking as well: a hang of the library
+			}
+			return r, se2, err2
+		}
+		skip = append(skip, strconv.Itoa(idx))
+	}
 }
 
 func spawnWorker(self string, env []string, args []string) (*WorkerResult, string, error) {
@@ -401,7 +445,11 @@ func runMain(propID, tier string) int {
 		done := make(chan int, n)
 		for i := 0; i < n; i++ {
 			go func(i int) {
-				r, se, err := spawnWorker(ph.bin, ph.env, []string{propID, tier, strconv.FormatUint(seed, 10), strconv.Itoa(i), strconv.Itoa(n), strconv.Itoa(ph.lo), strconv.Itoa(ph.hi)})
+				spawn := spawnWorker
+				if propID == "C18" {
+					spawn = spawnWorkerClassifyingBlocks
+				}
+				r, se, err := spawn(ph.bin, ph.env, []string{propID, tier, strconv.FormatUint(seed, 10), strconv.Itoa(i), strconv.Itoa(n), strconv.Itoa(ph.lo), strconv.Itoa(ph.hi)})
 				pres[i] = wr{r, se, err, ph.bin, ph.env}
 				done <- i
 			}(i)
@@ -625,11 +673,21 @@ func reportViolation(p *PropDef, seed uint64, tier string, wv WorkerViol) string
 	rf := &ReplayFile{Property: p.ID, Seed: seed, Tier: tier, Index: wv.Index, Oracle: wv.V.Oracle, Key: wv.V.Key, Detail: wv.V.Detail}
 	if p.ID == "C18" && wv.V.Oracle != "hang" && wv.V.Oracle != "fatal" && wv.V.Oracle != "data_race" && !yieldBuild && os.Getenv("IKESIM_YIELD_BIN") != "" {
 		// serialized-mode findings reproduce only in the instrumented binary: confirm and shrink there
-		cmd := exec.Command(os.Getenv("IKESIM_YIELD_BIN"), "report", p.ID, tier, strconv.FormatUint(seed, 10), strconv.Itoa(wv.Index), wv.V.Oracle, wv.V.Key, path,
+		ctx, cancel := context.WithTimeout(context.Background(), 10*time.Minute)
+		defer cancel()
+		cmd := exec.CommandContext(ctx, os.Getenv("IKESIM_YIELD_BIN"), "report", p.ID, tier, strconv.FormatUint(seed, 10), strconv.Itoa(wv.Index), wv.V.Oracle, wv.V.Key, path,
 			strconv.Itoa(wv.Lo), strconv.Itoa(wv.Wi), strconv.Itoa(wv.Wn))
 		cmd.Env = append(os.Environ(), "IKESIM_C18_MODE=yield")
 		cmd.Stderr = os.Stderr
 		if err := cmd.Run(); err != nil {
+			if ctx.Err() != nil {
+				// confirmation / minimisation did not finish (a reduced schedule may block): keep the scenario as the worker saw it
+				rf.Scenario = genScenario(p, seed, wv.Index, tier)
+				rf.OrigSteps = len(rf.Scenario.Steps)
+				rf.Detail += "\n(minimisation did not finish within 10 minutes; the scenario is stored unreduced)"
+				writeJSON(path, rf)
+				return path
+			}
 			fmt.Fprintln(os.Stderr, "harness error: report subprocess:", err)
 			os.Exit(2)
 		}
